@@ -7,6 +7,7 @@ import (
 	"path/filepath"
 	"strings"
 	"testing"
+	. "verifharness/hist"
 
 	"pgregory.net/rapid"
 	. "verifharness/evid"
